@@ -594,7 +594,8 @@ def run(chk: lib.Check):
             else:
                 links.append(("dead-" + str(rng.randint(0, 99)), False, rng.choice(texts)))
         lt_docs.append((lead, links))
-    lt_docs += [("", [(live[0].uuid, True, " after")]), ("before ", [(live[0].uuid, True, ""), (live[1].uuid, True, " end")])]
+    lt_docs += [("line1\r\nline2", []), ("", [(live[0].uuid, True, " after")]),
+                ("before ", [(live[0].uuid, True, ""), (live[1].uuid, True, " end")])]
 
     def name_html(uuid):
         el_ = model._loader[uuid]
@@ -634,12 +635,12 @@ def run(chk: lib.Check):
         chk.note_case(("lt", u))
         want = stored_form(lead, links)
         if got != want:
-            key_ = "linkedtext:tail" if any(t for _, _, t in links) else "linkedtext:escape"
+            key_ = "linkedtext:cr" if "\r" in u else "linkedtext:tail" if any(t for _, _, t in links) else "linkedtext:escape"
             chk.violation(key_, f"escape_linked_text({u!r:.120}) = {got!r:.120}, expected {want!r:.120}", {"kind": "linkedtext", "value": u})
         # reading the stored form back (live links by name, dead links rendered as text)
         back = str(helpers.unescape_linked_text(model._loader, want))
         if back != user_form(lead, links, as_read=True):
-            chk.violation("linkedtext:unescape", f"unescape_linked_text({want!r:.120}) = {back!r:.120}", {"kind": "linkedtext", "stored": want})
+            chk.violation("linkedtext:cr" if "\r" in want else "linkedtext:unescape", f"unescape_linked_text({want!r:.120}) = {back!r:.120}", {"kind": "linkedtext", "stored": want})
         # through the specification mapping of a live constraint
         if target is not None:
             spec = target.specification
@@ -649,7 +650,7 @@ def run(chk: lib.Check):
             body = spec._body_at("capella:linkedText", 0).text or ""
             spec._body_at("capella:linkedText", 0).text = old_body
             if rb != user_form(lead, links, as_read=True) or body != want:
-                key_ = "linkedtext:tail" if any(t for _, _, t in links) else "linkedtext:spec"
+                key_ = "linkedtext:cr" if "\r" in u else "linkedtext:tail" if any(t for _, _, t in links) else "linkedtext:spec"
                 chk.violation(key_, f"specification['LinkedText'] = {u!r:.120} stores {body!r:.120} and reads back {rb!r:.120}",
                               {"kind": "linkedtext", "value": u, "stored": body, "read_back": rb})
     for bad in ["<b>bold</b>", "<a href=\"hlink://x\"><i>n</i></a>", "t<a>no href</a>u", "<a href=\"http://e\">ext</a> z"]:
